@@ -8,7 +8,8 @@ VARIABLE i
 Init == i = 0
 Next == i < Len(Events) /\ i' = i + 1
 Spec == Init /\ [][Next]_i
-Judge(e) == R_C10_parse(e.parse) /\ (e.parse = "ok" => R_C10_call(e.call)) /\ e.terminated
+Judge(e) == IF e.p = "C01" THEN (e.parse = "ok" /\ R_C01_extreme(e.c, e.call))
+            ELSE R_C10_parse(e.parse) /\ (e.parse = "ok" => R_C10_call(e.call)) /\ e.terminated
 Inv == i = 0 \/ Judge(Events[i]) \/ PrintT(ToJson([reject |-> Events[i].id]))
 Consumed == TLCGet("stats").diameter = Len(Events) + 1
 =============================================================================
